@@ -455,3 +455,31 @@ func (p *Prop) KnownFinding(sig string, reproduced bool) {
 		fmt.Printf("NOTE: property=%s listed finding sig=%s did not reproduce on this tree\n", p.ID, sig)
 	}
 }
+
+// Concurrently runs f(0..n-1) in n goroutines released together and waits.
+// A panic in a goroutine is returned (first one) instead of killing the process.
+func Concurrently(n int, f func(g int)) (panicVal any) {
+	var wg sync.WaitGroup
+	var mu sync.Mutex
+	start := make(chan struct{})
+	for g := 0; g < n; g++ {
+		wg.Add(1)
+		go func(g int) {
+			defer wg.Done()
+			defer func() {
+				if r := recover(); r != nil {
+					mu.Lock()
+					if panicVal == nil {
+						panicVal = r
+					}
+					mu.Unlock()
+				}
+			}()
+			<-start
+			f(g)
+		}(g)
+	}
+	close(start)
+	wg.Wait()
+	return panicVal
+}
